@@ -53,7 +53,7 @@ pub struct Specs {
 
 pub const fn layout(l: usize) -> Specs {
     match l {
-        0 => {
+        0 | 4 => {
             let fwd_bits = VMLocalForwardingBitsSpec::side_first();
             let mark = VMLocalMarkBitSpec::side_after(fwd_bits.as_spec());
             #[cfg(feature = "object_pinning")]
@@ -134,7 +134,8 @@ impl<const MINA: usize, const MAXA: usize, const LAYOUT: usize>
     const LOCAL_PINNING_BIT_SPEC: VMLocalPinningBitSpec = layout(LAYOUT).pin;
     const LOCAL_LOS_MARK_NURSERY_SPEC: VMLocalLOSMarkNurserySpec = layout(LAYOUT).nursery;
 
-    const OBJECT_REF_OFFSET_LOWER_BOUND: isize = 0;
+    /// LAYOUT 4: the object reference points 16 bytes past the object start (a header precedes it).
+    const OBJECT_REF_OFFSET_LOWER_BOUND: isize = if LAYOUT == 4 { 16 } else { 0 };
 
     fn copy(
         _from: ObjectReference,
@@ -170,7 +171,11 @@ impl<const MINA: usize, const MAXA: usize, const LAYOUT: usize>
         unimplemented!()
     }
     fn ref_to_object_start(object: ObjectReference) -> Address {
-        object.to_raw_address()
+        if LAYOUT == 4 {
+            object.to_raw_address() - 16usize
+        } else {
+            object.to_raw_address()
+        }
     }
     fn ref_to_header(object: ObjectReference) -> Address {
         object.to_raw_address()
